@@ -273,6 +273,8 @@ pub fn alphabet(name: &str) -> Vec<&'static str> {
         "cluster" => vec!["\r\n", "e\u{0301}", "🇩🇪", "👨\u{200D}👩", "a\u{0308}", "x"],
         // two characters that share their first code point (a code-point-wise common prefix cuts through a cluster)
         "share" => vec![" ", "e\u{0301}", "e", "\u{0301}", "e\u{0301}\u{0302}", "x"],
+        // the same with a letter that has no precomposed form (the clusters survive NFKC normalisation)
+        "shareq" => vec![" ", "q\u{0303}", "q", "\u{0303}", "q\u{0303}\u{0302}", "x"],
         // two different whitespace characters (never substituted for one another under spaces_insert_delete_only)
         "ws2" => vec![" ", "\t", "a", "\u{00A0}", "b", "\n"],
         // tab as whitespace, ideographic space is in "wide"
